@@ -21,9 +21,10 @@ fn rd(w: u32, scale: u32, x: u64) -> Option<Result<u128, ()>> {
     })
 }
 
-fn wr(w: u32, scale: u32, ms: u64) -> Option<Result<u64, ()>> {
+fn wr(w: u32, scale: u32, ms: u128) -> Option<Result<u64, ()>> {
     guard(move || {
-        let d = Duration::from_millis(ms);
+        // any duration a `Duration` can hold (up to u64::MAX seconds, far beyond 2^64 ms)
+        let d = Duration::new((ms / 1000) as u64, ((ms % 1000) as u32) * 1_000_000);
         let mut c = Cursor::new(Vec::new());
         let r = match (w, scale) {
             (2, 1) => binrw_write_duration::<u16, 1, _>(&d, &mut c, Endian::Little, ()),
@@ -119,7 +120,7 @@ fn do_rd(ctx: &mut Ctx, w: u32, s: u32, x: u64, model_line: bool) {
             if ms != (x as u128) * (s as u128) {
                 ctx.violation(&format!("c15/dur/read/w{}s{}", w, s), "wire value decodes to the wrong duration", &input, &format!("{}", x as u128 * s as u128), &format!("{}", ms));
             }
-            let back = wr(w, s, ms as u64);
+            let back = wr(w, s, ms as u64 as u128);
             if back != Some(Ok(x)) {
                 ctx.violation(&format!("c15/dur/reencode/w{}s{}", w, s), "decoded time does not re-encode to the same wire value", &input, &format!("{}", x), &format!("{:?}", back));
             }
@@ -128,14 +129,16 @@ fn do_rd(ctx: &mut Ctx, w: u32, s: u32, x: u64, model_line: bool) {
     }
 }
 
-fn do_wr(ctx: &mut Ctx, w: u32, s: u32, ms: u64) {
+fn do_wr(ctx: &mut Ctx, w: u32, s: u32, ms: u64) { do_wr128(ctx, w, s, ms as u128) }
+
+fn do_wr128(ctx: &mut Ctx, w: u32, s: u32, ms: u128) {
     let r = wr(w, s, ms);
     let input = format!("dur.wr {} {} {}", w, s, ms);
     ctx.case(&input, &res(r.clone()));
-    let q = ms / s as u64;
-    let fits = (q as u128) < (1u128 << (8 * w));
+    let q = ms / s as u128;
+    let fits = q < (1u128 << (8 * w));
     match r {
-        Some(Ok(x)) if fits && x == q => {},
+        Some(Ok(x)) if fits && x as u128 == q => {},
         Some(Err(())) if !fits => {},
         other => ctx.violation(&format!("c15/dur/write/w{}s{}", w, s), "duration not rounded down exactly / not refused when out of range", &input, &(if fits { format!("ok {}", q) } else { "err".into() }), &format!("{:?}", other)),
     }
@@ -287,7 +290,7 @@ pub fn run(ctx: &mut Ctx) {
                 ["bld.interval", ms] => builder_interval_case(ctx, ms.parse().unwrap_or(0)),
                 ["pkt.rt", m, h] => dur_fields_case(ctx, &ls, *m == "c", &unhex(h)),
                 ["dur.rd", a, b, c] => do_rd(ctx, a.parse().unwrap(), b.parse().unwrap(), c.parse().unwrap(), true),
-                ["dur.wr", a, b, c] => do_wr(ctx, a.parse().unwrap(), b.parse().unwrap(), c.parse().unwrap()),
+                ["dur.wr", a, b, c] => do_wr128(ctx, a.parse().unwrap(), b.parse().unwrap(), c.parse().unwrap()),
                 ["laps.rd", b] => do_laps_rd(ctx, b.parse().unwrap()),
                 ["laps.wr", "practice"] => do_laps_wr(ctx, RaceLaps::Practice),
                 ["laps.wr", "laps", n] => do_laps_wr(ctx, RaceLaps::Laps(n.parse().unwrap())),
@@ -368,6 +371,11 @@ pub fn run(ctx: &mut Ctx) {
         for m in ms {
             do_wr(ctx, w, s, m);
         }
+        // durations of 2^64 ms and far more (a Duration holds up to u64::MAX seconds): whatever their low bits say, refused
+        for secs in [18_446_744_073_709_551u128, 18_446_744_073_709_552, 18_446_744_073_709_553, 1 << 61, 1 << 62, 1 << 63, (1 << 63) + 65, u64::MAX as u128] {
+            for extra in [0u128, 1, 384, 999] { do_wr128(ctx, w, s, secs * 1000 + extra); }
+        }
+        for m in [(u64::MAX as u128) + 1, (u64::MAX as u128) + 65_536, (u64::MAX as u128) + 1 + (1u128 << (8 * w)) * s as u128 - 1, (1u128 << 64) * 10, (1u128 << 64) * 10 + 70, 1u128 << 70] { do_wr128(ctx, w, s, m); }
     }
     // race lengths: all 256 bytes; lap / hour counts 0..2000 and beyond
     for b in 0..=255u8 {
